@@ -46,6 +46,12 @@ fn main() {
             println!("events={}", out.lines);
             out.finish();
         }
+        "real-sleep" => {
+            sentinel_core::verif::clock::off();
+            let t = std::time::Instant::now();
+            sentinel_core::utils::sleep_for_ms(a.num("ms", 20));
+            println!("took_us={}", t.elapsed().as_micros());
+        }
         "world-replay" => {
             let mut out = Out::create(a.get("out"));
             let mut w = world::World::new();
@@ -66,6 +72,7 @@ fn main() {
                     "c04" => gens::c04(&mut rng, len),
                     "c05" => gens::c05(&mut rng, len),
                     "c06" => gens::c06(&mut rng, len),
+                    "c07" => gens::c07(&mut rng, len),
                     p => panic!("no generator for {}", p),
                 };
                 out.put_all(&w.exec(&h));
